@@ -103,3 +103,68 @@ fn c14_ready_below_high_water() {
     kani::cover!(true, "ready");
     core::mem::forget(f);
 }
+
+
+// ---------------------------------------------------------------- high-water mark (lengths only; model bytes feature `lenonly`)
+#[cfg(feature = "lenonly")]
+mod hw {
+    use super::*;
+    struct Big;     // an item whose encoding is `n` unspecified bytes
+    struct EncN;
+    impl Encoder<usize> for EncN { type Error = io::Error; fn encode(&mut self, n: usize, dst: &mut BytesMut) -> Result<(), io::Error> { let z = [0u8; 64]; let mut left = n; while left > 0 { let k = if left > 64 { 64 } else { left }; dst.put_slice(&z[..k]); left -= k; } Ok(()) } }
+    impl Decoder for EncN { type Item = (); type Error = io::Error; fn decode(&mut self, _: &mut BytesMut) -> Result<Option<()>, io::Error> { Ok(None) } }
+    /// transport that accepts a symbolic number of bytes per write (or is Pending), counting what it took
+    struct Cnt { taken: usize, writes: u8, flushes: u8 }
+    impl AsyncRead for Cnt { fn poll_read(self: Pin<&mut Self>, _: &mut Context<'_>, _: &mut ReadBuf<'_>) -> Poll<io::Result<()>> { Poll::Ready(Ok(())) } }
+    impl AsyncWrite for Cnt {
+        fn poll_write(mut self: Pin<&mut Self>, _: &mut Context<'_>, b: &[u8]) -> Poll<io::Result<usize>> {
+            if self.writes >= 2 { kani::assume(false); }
+            self.writes += 1;
+            if kani::any() { return Poll::Pending; }
+            let k: usize = kani::any(); kani::assume(k >= 1 && k <= b.len());
+            self.taken += k; Poll::Ready(Ok(k))
+        }
+        fn poll_flush(mut self: Pin<&mut Self>, _: &mut Context<'_>) -> Poll<io::Result<()>> { self.flushes += 1; Poll::Ready(Ok(())) }
+        fn poll_shutdown(self: Pin<&mut Self>, _: &mut Context<'_>) -> Poll<io::Result<()>> { Poll::Ready(Ok(())) }
+    }
+    fn mk(len: usize) -> Pin<Box<Framed<Cnt, EncN>>> {
+        Box::pin(Framed { io: Cnt { taken: 0, writes: 0, flushes: 0 }, codec: EncN, flags: Flags::empty(), read_buf: BytesMut::with_capacity(HW), write_buf: BytesMut::model_with_len(len, HW) })
+    }
+    /// poll_ready: Ready(Ok) without touching the transport exactly while fewer than HW (8192) bytes are buffered; at or above
+    /// the mark it must flush, and may report Ready(Ok) only once everything has been written
+    #[kani::proof] #[kani::unwind(4)]
+    fn c14_hw_poll_ready_back_pressure() {
+        let len: usize = kani::any(); kani::assume(len <= 8300);
+        let mut f = mk(len);
+        let w = noop(); let mut cx = Context::from_waker(&w);
+        let r = Sink::<usize>::poll_ready(f.as_mut(), &mut cx);
+        if len < 8192 {
+            assert!(matches!(r, Poll::Ready(Ok(()))) && f.io.writes == 0, "below the high-water mark: ready without I/O");
+        } else {
+            assert!(f.io.writes >= 1, "at or above the high-water mark poll_ready exerts back-pressure (it flushes)");
+            if let Poll::Ready(Ok(())) = r { assert!(f.write_buf.len() == 0 && f.io.taken == len, "ready again only after the buffer has been written out"); }
+        }
+        assert!(f.io.taken + f.write_buf.len() == len, "lengths are conserved");
+        kani::cover!(len == 8192, "exactly at the mark"); kani::cover!(len == 8191, "one below the mark");
+        core::mem::forget(f);
+    }
+    /// the accessors agree with the mark
+    #[kani::proof] #[kani::unwind(4)]
+    fn c14_hw_accessors() {
+        let len: usize = kani::any(); kani::assume(len <= 8300);
+        let f = mk(len);
+        assert!(f.is_write_ready() == (len < 8192) && f.is_write_buf_full() == (len >= 8192) && f.is_write_buf_empty() == (len == 0));
+        kani::cover!(len == 8192, "at the mark");
+        core::mem::forget(f);
+    }
+    /// start_send of an item straddling the marks only appends: the buffered length grows by exactly the encoding
+    #[kani::proof] #[kani::unwind(140)]
+    fn c14_hw_start_send_appends() {
+        let len: usize = kani::any(); let n: usize = kani::any(); kani::assume(len <= 8300 && n <= 600);
+        let mut f = mk(len);
+        assert!(Sink::<usize>::start_send(f.as_mut(), n).is_ok());
+        assert!(f.write_buf.len() == len + n && f.io.writes == 0, "start_send only appends the encoding");
+        kani::cover!(len < 1024 && len + n > 1024, "crosses the low-water mark"); kani::cover!(len < 8192 && len + n > 8192, "crosses the high-water mark");
+        core::mem::forget(f);
+    }
+}
